@@ -1,5 +1,6 @@
 import Model.Rules
 import Model.Checker
+import Model.Guard
 /-!
 # The Python primitives that the translated rule bodies are made of
 
@@ -20,6 +21,9 @@ inductive V where
   | seq (xs : List V)            -- a tuple / list of such objects (`self.rules`, the answers of a comprehension)
   | policy (p : Policy)          -- a `Policy` object (the `policy` argument of a checker)
   | other                        -- an object of some other class (an attribute dictionary among string elements, ...)
+  | checker (k : CheckerKind)    -- the guard's checker object
+  | storage (a : StoreAns)       -- the guard's storage, as it answers `find_for_inquiry` for this inquiry
+  | lazySeq (xs : List V) (failAt : Nat)   -- an iterable that raises before yielding item `failAt`
 
 instance : Inhabited V := ⟨.py .none⟩
 
@@ -35,6 +39,9 @@ def truth : V → Bool
   | .seq xs => !xs.isEmpty
   | .policy _ => true
   | .other => true
+  | .checker _ => true
+  | .storage _ => true
+  | .lazySeq _ _ => true
 
 /-- the answer of `satisfied` as the checkers see it: its truthiness, or the exception -/
 def toR (m : M) : R := m.map truth
@@ -292,5 +299,78 @@ def strSlice1m1M (a : M) : M :=
   bindM a fun x => match x with
     | .py (.str cs) => .ok (.py (.str ((cs.drop 1).dropLast)))
     | _ => raiseM
+
+/-! ### the guard: storage answer, checker calls, context restriction -/
+
+def fieldOfName (cs : List Char) : Option Field :=
+  if cs = "actions".toList then some .actions
+  else if cs = "subjects".toList then some .subjects
+  else if cs = "resources".toList then some .resources
+  else Option.none
+
+/-- `checker.fits(policy, '<field>', value, inquiry)`: the model's checker of that kind -/
+def methFits (c p f w q : M) : M :=
+  bindM c fun c => bindM p fun p => bindM f fun f => bindM w fun w => bindM q fun q => match c, p, f, w, q with
+    | .checker k, .policy p, .py (.str name), .py w, .inq (some q) =>
+      (match fieldOfName name with
+       | some fld => liftR (fits k p fld w q)
+       | Option.none => raiseM)
+    | _, _, _, _, _ => raiseM
+
+/-- `policy.allow_access()` -/
+def methAllowAccess (p : M) : M :=
+  bindM p fun p => match p with | .policy p => ofBool p.allowAccess | _ => raiseM
+
+/-- `policy.context.items()`: (key, rule) pairs; an entry without `satisfied` is some other object -/
+def contextItemsM (p : M) : M :=
+  bindM p fun p => match p with
+    | .policy p => .ok (.seq (p.context.map fun kv =>
+        V.seq [.py (.str kv.1), (match kv.2 with | .rule r => V.rule r | .junk => V.other)]))
+    | _ => raiseM
+
+/-- the i-th component of a pair bound by `for a, b in …` -/
+def seqItemM (a : M) (i : Nat) : M :=
+  bindM a fun x => match x with
+    | .seq xs => (match xs[i]? with | some v => .ok v | Option.none => raiseM)
+    | _ => raiseM
+
+/-- `try: v = container[key]  except KeyError: <handler>` followed by the rest of the block: a missing key of a
+dictionary goes to the handler, any other failure (a container that is not a dictionary, an unhashable key) propagates -/
+def trySubscriptM (container key : M) (onKeyError : M) (rest : V → M) : M :=
+  bindM container fun c => bindM key fun k => match c, k with
+    | .py (.dict kvs), .py (.str s) => (match lookup s kvs with | some v => rest (.py v) | Option.none => onKeyError)
+    | .py (.dict _), .py kv => if hashable kv then onKeyError else raiseM
+    | _, _ => raiseM
+
+/-- `storage.find_for_inquiry(inquiry, checker)` -/
+def methFind (st q c : M) : M :=
+  bindM st fun st => bindM q fun _ => bindM c fun _ => match st with
+    | .storage .raises => raiseM
+    | .storage .nothing => cNone
+    | .storage (.items xs Option.none) => .ok (.seq (xs.map V.policy))
+    | .storage (.items xs (some n)) => .ok (.lazySeq (xs.map V.policy) n)
+    | _ => raiseM
+
+/-- `[x for x in xs if cond(x)]`: every item is tested in order, the first exception propagates; a lazy iterable
+raises when its failing position is reached -/
+def filterLoop : List V → (V → M) → Except PyErr (List V)
+  | [], _ => .ok []
+  | x :: xs, f => match f x with
+    | .error e => .error e
+    | .ok b => (match filterLoop xs f with
+      | .error e => .error e
+      | .ok rest => .ok (if truth b then x :: rest else rest))
+
+def filterCompM (a : M) (f : V → M) : M :=
+  bindM a fun x => match x with
+    | .lazySeq xs n =>
+      if n ≤ xs.length then (match filterLoop (xs.take n) f with | .error e => .error e | .ok _ => raiseM)
+      else (filterLoop xs f).map V.seq
+    | _ => match items x with
+      | some xs => (filterLoop xs f).map V.seq
+      | Option.none => raiseM
+
+/-- `try: BODY  except Exception: HANDLER` where both end the function -/
+def catchAllM (body handler : M) : M := match body with | .error _ => handler | r => r
 
 end Vakt.PyPrim
